@@ -48,6 +48,21 @@ impl FileOperations for WriteAheadLog {
         let fs_block_size = FileSystem::block_size(&path)?;
         let default_block_size = WAL_BLOCK_SIZE.next_multiple_of(fs_block_size);
 
+        // A log that was truncated (checkpoint, end of recovery) and not written again before the
+        // process died is shorter than one block: it is an empty log, not a corrupt one.
+        if (file.metadata()?.len() as usize) < default_block_size {
+            let header = BlockZero::alloc(0, default_block_size);
+            file.seek(SeekFrom::Start(0))?;
+            file.write_all(header.as_ref())?;
+            return Ok(Self {
+                header,
+                current_block: None,
+                flush_queue: VecDeque::new(),
+                file,
+                block_size: default_block_size,
+            });
+        }
+
         // Read block 0 (global header)
         let mut header_buf: BlockZero = BlockZero::new(default_block_size);
         file.seek(SeekFrom::Start(0))?;
